@@ -256,6 +256,9 @@ func (x *Exec) atReturn(s *State, vals []Value) {
 		x.check(s, "panic", "panic/refused", Not(g), end, "normal return only when !("+c.Panics.Src+")")
 	}
 	for i, e := range c.Ensures {
+		if c.Trusted {
+			break // the helper ensures of a trusted contract are assumptions for callers, not obligations
+		}
 		g := asTerm(x.evalSpec(mkEnv(nil), e.E))
 		for j, cj := range splitConj(g) {
 			x.oblige(s, "post", fmt.Sprintf("post#%d.%d", i+1, j+1), cj, token.NoPos, e.Src)
